@@ -58,6 +58,26 @@ impl Check for C09 {
                 sync.pipe_cap = sync.pipe_cap.max(65536);
             }
         }
+        // one scenario in eight: a push with --delete whose delete LIST can be cut anywhere — a
+        // one-byte pipe makes every byte of the list a separate write, so every prefix of every
+        // record is a possible last thing the remote `xargs` sees when the sender dies. The
+        // destination holds a file that must stay ("a") next to one that must go ("a.b"): a record
+        // cut after "…/a" names the file that must stay.
+        if r.below(8) == 0 {
+            sync.dir = 1;
+            sync.delete = true;
+            sync.excludes.clear();
+            sync.pipe_cap = 1;
+            for f in &mut sync.files {
+                f.size = f.size.min(40);
+            }
+            let (keep, gone) = *r.pick(&[("a", "a.b"), ("a", "a b"), ("e", "e!"), ("target", "target.old"), ("sub/k", "sub/k2")]);
+            sync.files.retain(|f| f.path != keep && f.path != gone && !f.path.starts_with(&format!("{keep}/")) && !f.path.starts_with(&format!("{gone}/")) && !(keep.starts_with("sub/") && f.path == "sub"));
+            sync.extra_dst.retain(|(p, _)| p != keep && p != gone && !p.starts_with(&format!("{keep}/")) && !p.starts_with(&format!("{gone}/")) && !(keep.starts_with("sub/") && p == "sub"));
+            sync.files.push(FileSpec { path: keep.into(), size: 12, tag: 7, mtime_s: 1_650_000_000, mtime_ns: 0, dst: DstState::SameSizeMtime });
+            sync.extra_dst.push((gone.into(), 9));
+            sync.dst_exists = true;
+        }
         Sc { sync, only_k: None, max_points: if tier == Tier::Quick { 60 } else { 300 } }
     }
     fn execute(&self, s: &Sc) -> RunReport {
